@@ -2,6 +2,7 @@
 //! canonical printers.  Each binary under src/bin/ serves one family of observations.
 pub mod depth;
 pub mod dt;
+pub mod fuzz;
 pub mod tree;
 pub mod util;
 
